@@ -443,10 +443,23 @@ Section Graph.
     budget_ok count (max_tokens c) ch -> budget_ok count (max_tokens c) (set_heading h ch).
   Proof. intro H. exact H. Qed.
 
-  Theorem graph_budget_additive es : additive = true ->
+  (** the approval test of a whole-section chunk measures the emitted text *)
+  Lemma section_tokens_joined sec : sec <> [] ->
+    section_tokens count additive sec = count (chunk_text sec).
+  Proof.
+    intro Hne. unfold Model.section_tokens, chunk_text.
+    destruct (Bool.bool_dec additive true) as [Ha|Ha].
+    - rewrite Ha. rewrite (count_join_additive _ Ha).
+      + rewrite map_map. reflexivity.
+      + destruct sec; [congruence | discriminate].
+    - apply Bool.not_true_is_false in Ha. rewrite Ha. reflexivity.
+  Qed.
+
+  (** budget of the section-graph chunker, every counter honouring its declaration (fixed code) *)
+  Theorem graph_budget es :
     Forall (budget_ok count (max_tokens c)) (chunk_graph count additive c es).
   Proof.
-    intro Ha. unfold Model.chunk_graph. destruct (isnil es); [constructor|].
+    unfold Model.chunk_graph. destruct (isnil es); [constructor|].
     apply Forall_app. split.
     - destruct (isnil (preamble es)); [constructor|].
       pose proof (proj2 (chunk_seq_all count additive additive_ok c (preamble es))) as H.
@@ -456,13 +469,23 @@ Section Graph.
       match goal with |- context [if ?b then _ else _] => destruct b eqn:Eb end.
       + constructor; [|constructor]. unfold Model.mk_chunk. split; cbn [celems tokens oversized].
         * reflexivity.
-        * intros _. apply N.leb_le in Eb. unfold chunk_text.
-          rewrite count_join_additive by (try assumption; discriminate).
-          rewrite map_map. exact Eb.
+        * intros _. apply N.leb_le in Eb.
+          rewrite section_tokens_joined in Eb by discriminate. exact Eb.
       + apply Forall_forall. intros ch Hin. apply in_map_iff in Hin. destruct Hin as (ch0 & <- & Hin).
         apply budget_set_heading.
         pose proof (proj2 (chunk_seq_all count additive additive_ok c (te :: select ti (parents_from 0 [] es) es))) as H.
         rewrite Forall_forall in H. exact (proj1 (H _ Hin)).
+  Qed.
+
+  (** for an additive counter the fix changes nothing: fixed and pinned code coincide *)
+  Lemma chunk_graph_pinned_additive es : additive = true ->
+    chunk_graph_pinned count additive c es = chunk_graph count additive c es.
+  Proof.
+    intro Ha. unfold Model.chunk_graph_pinned, Model.chunk_graph.
+    destruct (isnil es); [reflexivity|]. f_equal.
+    apply flat_map_ext. intros [ti te].
+    unfold Model.section_chunks_pinned, Model.section_chunks, Model.section_tokens.
+    rewrite Ha. reflexivity.
   Qed.
 End Graph.
 
@@ -489,13 +512,30 @@ Proof.
   - match goal with H1 : is_splittable _ = true |- _ => discriminate H1 end.
 Qed.
 
-Lemma graph_budget_refuted :
-  exists es, ~ Forall (budget_ok count_chars4 2) (chunk_graph count_chars4 false (wit_cfg 2) es).
+(** record of the pinned behaviour (known finding C14-graph-budget-sum, fixed): the pre-fix
+    definition approves a section by the per-element sum although the emitted text is over budget *)
+Lemma graph_budget_pinned_refuted :
+  exists es, ~ Forall (budget_ok count_chars4 2) (chunk_graph_pinned count_chars4 false (wit_cfg 2) es).
 Proof.
   exists [wit_title [97;98;99;100]; wit_para [101;102;103;104] (Some [97;98;99;100])].
   intro H. vm_compute in H. inversion H as [|ch l [_ Hb] _]; subst.
   specialize (Hb eq_refl). vm_compute in Hb. apply Hb. reflexivity.
 Qed.
+
+(** the same input on the fixed code: the section is re-chunked, every chunk within budget *)
+Example graph_budget_witness_fixed :
+  let es := [wit_title [97;98;99;100]; wit_para [101;102;103;104] (Some [97;98;99;100])] in
+  map (fun ch => (length (celems ch), oversized ch, tokens ch))
+      (chunk_graph count_chars4 false (wit_cfg 2) es) = [(1%nat, false, 1); (1%nat, false, 1)].
+Proof. vm_compute. reflexivity. Qed.
+
+(** non-vacuity of the whole-section branch under a non-additive counter: with max 3 the joined
+    text "abcd\nefgh" (9 characters, 3 tokens) is approved as one chunk of two elements *)
+Example graph_budget_whole_section_nonadditive :
+  let es := [wit_title [97;98;99;100]; wit_para [101;102;103;104] (Some [97;98;99;100])] in
+  map (fun ch => (length (celems ch), oversized ch, tokens ch))
+      (chunk_graph count_chars4 false (wit_cfg 3) es) = [(2%nat, false, 3)].
+Proof. vm_compute. reflexivity. Qed.
 
 (** * Well-sectioned input: the gathered sections are the input *)
 Lemma flat_map_ext_in' {A B} (f g : A -> list B) l :
